@@ -34,7 +34,7 @@ LEVEL_TEXT = ("Machine-checked proof (Coq, closed under the global context) over
 LEVEL_NOTE = ("Proof over a modelled file system: os.chmod/chown/utime/truncate and open('r+') are small Gallina "
               "re-implementations of their documented behaviour, validated only by the correspondence run; the "
               "modification time after a resize is an input taken from the implementation; permission errors, "
-              "win32, chown to foreign ids and the kernel's clearing of set-id bits on chown / resize are outside the model "
+              "win32 and the kernel's clearing of set-id bits on chown / resize are outside the model "
               "(the latter is compared with the os.* call on a twin tree, full mode bits); symlinks are modelled as transparent (every os.* "
               "call used follows them), which the twin-tree comparison checks on the real file system.")
 TECHNIQUE = ("Coq proof over a modelled file + AST translator for flag bits and step list + vm_compute differential "
@@ -91,6 +91,17 @@ def gen_mode(rng, allbits):
     return m
 
 
+ID_PAIRS = [(1234, 5678), (5678, 1234), (1, 2), (65534, 100), (1000, 1001), (0, 7), (3, 0), (4000000000, 17)]
+
+
+def gen_ids(rng):
+    """Owner and group to chown to: always two DIFFERENT numbers when the server may chown at will
+    (root); otherwise only the current ids are possible (noted in the evidence)."""
+    if os.geteuid() == 0:
+        return rng.choice(ID_PAIRS)
+    return (os.getuid(), os.getgid())
+
+
 def gen_size(rng, cur, maxlen):
     return min(maxlen, max(0, rng.choice([0, cur, cur, cur - 1, cur + 1, cur // 2, cur * 2, rng.randrange(0, cur + 1),
                                           cur + rng.randrange(0, 300), rng.randrange(0, maxlen + 1)])))
@@ -104,7 +115,7 @@ def gen_case(rng, maxlen, root_user):
     if op == "chmod":
         req["mode"] = gen_mode(rng, root_user) | rng.choice([0, 0, 0o100000])
     elif op == "chown":
-        req["ids"] = (os.getuid(), os.getgid())
+        req["ids"] = gen_ids(rng)
     elif op == "utime":
         req["times"] = (gen_time(rng), gen_time(rng))
     elif op == "truncate":
@@ -114,7 +125,7 @@ def gen_case(rng, maxlen, root_user):
             if rng.random() < 0.5:
                 req["size"] = gen_size(rng, len(data), maxlen)
             if rng.random() < 0.3:
-                req["ids"] = (os.getuid(), os.getgid())
+                req["ids"] = gen_ids(rng)
             if rng.random() < 0.5:
                 req["mode"] = gen_mode(rng, False)
             if rng.random() < 0.5:
@@ -332,7 +343,7 @@ def gen_seq_case(rng, root_user):
         if k == "chmod":
             steps.append({"kind": "chmod", "mode": gen_mode(rng, False) | (0 if root_user else 0o600)})
         elif k == "chown":
-            steps.append({"kind": "chown", "ids": (os.getuid(), os.getgid())})
+            steps.append({"kind": "chown", "ids": gen_ids(rng)})
         elif k == "utime":
             steps.append({"kind": "utime", "times": (gen_time(rng), gen_time(rng))})
         else:
@@ -506,8 +517,13 @@ def gen_kind_case(rng, root_user):
          "atime0": gen_time(rng), "mtime0": gen_time(rng),
          "mode": (gen_mode(rng, False) | rng.choice([0, 0, 0o4000, 0o2000, 0o1000, 0o6000])
                   | (0 if root_user else 0o700)),
-         "ids": (os.getuid(), os.getgid()),
+         "ids": gen_ids(rng),
          "times": (gen_time(rng), gen_time(rng)), "size": gen_size(rng, len(data), 120)}
+    # the target's owner before the request (two different ids); a third of the chowns ask for the
+    # owner the file already has
+    c["owner0"] = gen_ids(rng) if root_user and rng.random() < 0.6 else None
+    if op == "chown" and c["owner0"] and rng.random() < 0.5:
+        c["ids"] = c["owner0"]
     return c
 
 
@@ -520,6 +536,8 @@ def build_tree(base, case):
     if k in ("file", "link", "removed-handle"):
         with open(t, "wb") as fh:
             fh.write(case["data"])
+        if case.get("owner0"):
+            os.chown(t, *case["owner0"])
         os.chmod(t, case["mode0"])
         os.utime(t, (case["atime0"], case["mtime0"]))
     if k == "link":
@@ -532,6 +550,8 @@ def build_tree(base, case):
         return "l"
     if k == "dir":
         os.mkdir(os.path.join(base, "d"))
+        if case.get("owner0"):
+            os.chown(os.path.join(base, "d"), *case["owner0"])
         os.chmod(os.path.join(base, "d"), case["mode0"])
         os.utime(os.path.join(base, "d"), (case["atime0"], case["mtime0"]))
         return "d"
@@ -666,7 +686,7 @@ def model_kind_case(case, obs):
            "truncate": (("Some", case["size"]), None, None, None)}[case["op"]]
     ent = obs["served"]["d"] if kind == 2 else obs["served"]["t"]
     now = ent["mtime"] if (ent and case["op"] == "truncate") else 0
-    uid0, gid0 = os.getuid(), os.getgid()
+    uid0, gid0 = case.get("owner0") or (os.getuid(), os.getgid())
     text = coq((now, kind, (list(case["data"]) if kind == 1 else [], case["mode0"], uid0, gid0, case["atime0"],
                             case["mtime0"]), req))
     status = {"ok": 0, "no-such-file": 2, "denied": 3, "failure": 4}[obs["outcome"]]
@@ -727,7 +747,7 @@ def gen_multi_case(rng, root_user, forced=None):
                 elif k == "truncate":
                     st["size"] = rng.randrange(0, 90)
                 else:
-                    st["ids"] = (os.getuid(), os.getgid())
+                    st["ids"] = gen_ids(rng)
                 steps.append(st)
     return {"multi": True, "files": files, "steps": steps}
 
@@ -837,8 +857,8 @@ def run(ctx):
     scale = 5 if ctx.thorough else 1
     root_user = os.geteuid() == 0
     ctx.rule = ("seeded generator: served file = random bytes (0..600 for model cases, up to 300 KB for oracle-only "
-                "cases), random permission bits and u32 times; (1) one request per case: chmod / chown (current ids) / "
-                "utime / truncate (targets smaller, equal, larger, 0) / combined flags, by path (SETSTAT) or by handle "
+                "cases), random permission bits and u32 times; (1) one request per case: chmod / chown / "
+                "utime / truncate (targets smaller, equal, larger, 0) / combined flags; chown to two DIFFERENT ids when root, by path (SETSTAT) or by handle "
                 "(FSETSTAT) through the real SFTPClient/SFTPFile, the file named by an absolute path, by a relative "
                 "path after SFTPClient.chdir(), or by an absolute path while a cwd is set (str or bytes), with a "
                 "same-named decoy present/absent where a wrongly resolved name would land; (2) sequences of 2-4 requests on the same open "
@@ -856,7 +876,10 @@ def run(ctx):
                     "client and server by this differential run; flag bits and the order / calls of the steps of "
                     "set_file_attr are regenerated from the source (gen/c31.py) and checked by proof obligations",
                     "mtime after a resize / write is taken from the implementation (bounded by wall clock in the oracle)"]
-    ctx.assumptions += ["served files are regular files the server process may modify; chown only to the current ids"]
+    ctx.assumptions += ["served files are regular files the server process may modify; chown to arbitrary ids only when running as root (else current ids)"]
+    if not root_user:
+        ctx.notes.append("not running as root: chown cases use the current uid/gid only (owner/group swaps are "
+                         "not observable in this run)")
     ctx.prove()
     root = tempfile.mkdtemp(prefix="verif-c31-")
     rig = None
@@ -1011,6 +1034,8 @@ def replay(ctx, rep):
         case["data"] = _unhex(case["data"])
         for k in ("ids", "times"):
             case[k] = tuple(case[k])
+        if case.get("owner0"):
+            case["owner0"] = tuple(case["owner0"])
         root = tempfile.mkdtemp(prefix="verif-c31-")
         rig = None
         try:
